@@ -39,14 +39,16 @@ THEOREMS = [
     "Cppcheck.GccArgs.slash_prefix_counterexample",
     "Cppcheck.GccArgs.parseArgs_eq_spec_counterexample",
     "Cppcheck.GccArgs.slash_prefix_users_example",
-    "Cppcheck.GccArgs.trailing_bare_option_oob",
+    "Cppcheck.GccArgs.trailing_bare_option_ignored",
+    "Cppcheck.GccArgs.trailing_bare_option_oob_before_0f74657",
+    "Cppcheck.GccArgs.fix_0f74657_conservative",
     "Cppcheck.import_command_eq_spec",
 ]
 MODULES = ["Cppcheck.Props.C32"]
 
 SLASH = ("/I", "/D", "/U", "/std:")
 PREFIXES = ("-I", "/I", "-isystem", "-D", "/D", "-U", "/U", "-std=", "/std:", "-f", "-m")
-BARE_OOB = ("-I", "/I", "-isystem", "-D", "/D", "-U", "/U", "-std=", "/std:", "-f")
+BARE_NAMES = ("-I", "/I", "-isystem", "-D", "/D", "-U", "/U", "-std=", "/std:", "-f", "-m")   # exactly-the-name arguments take the next one as value
 SEP_OPTS = ["-o", "-x", "-include", "-imacros", "-iquote", "-idirafter", "-isysroot", "-MF", "-MT", "-MQ", "-Xlinker", "-L", "-l", "-arch",
             "--param", "-target"]
 ROOTS = ["/home/u/proj", "/tmp/b", "/usr/local", "/opt/x", "/srv/w", "/Users/me/src", "/Data/w", "/Downloads", "/Include", "/Library/Dev",
@@ -292,7 +294,7 @@ def classify_parse_batch(R, fails, e="latin-1"):
     """fails: list of (args, want_line).  Returns the key of the known class each failing vector belongs to, or None:
     `slash-prefixed-path-arg` iff some argument starts with /I /D /U /std: AND the real code recovers exactly the
     specified options once those arguments are rewritten to start with "/_"."""
-    cand = [i for i, (args, _) in enumerate(fails) if neutralise(args) != args and not ends_bare(neutralise(args))]
+    cand = [i for i, (args, _) in enumerate(fails) if neutralise(args) != args]
     got = R.impl([parse_op(neutralise(fails[i][0]), e) for i in cand]) if cand else []
     keys = [None] * len(fails)
     for i, g in zip(cand, got):
@@ -344,7 +346,8 @@ def parse_op(args, e="latin-1", op="parse"):
 
 
 def ends_bare(args):
-    return bool(args) and args[-1] in BARE_OOB
+    """the vector ends in a bare option name (read out of bounds before commit 0f74657; only counted now)"""
+    return bool(args) and args[-1] in BARE_NAMES
 
 
 def show(args):
@@ -382,8 +385,8 @@ def tie_render(ctx, res, R, vectors):
 
 def tie_parse(ctx, res, R, vectors, name):
     """vectors: list of (args, opts|None).  Correspondence impl/model, spec sanity, P_impl."""
-    safe = [(a, o) for a, o in vectors if not ends_bare(a)]
-    risky = [(a, o) for a, o in vectors if ends_bare(a)]
+    safe = list(vectors)
+    res.count("ends-in-bare-option", sum(1 for a, _ in vectors if ends_bare(a)))
     ops = [parse_op(a) for a, _ in safe]
     impl, model = R.both(ops)
     spec = R.model([parse_op(a, op="spec") for a, _ in safe])
@@ -420,12 +423,6 @@ def tie_parse(ctx, res, R, vectors, name):
     res.traces_validated += len(safe) - len(mism)
     res.oblig("correspondence:" + name, not mism, "correspondence",
               "" if not mism else "%d of %d ops differ; first: %s impl=[%s] model=[%s]" % (len(mism), len(safe), show(safe[mism[0]][0]), impl[mism[0]], model[mism[0]]))
-    # vectors ending in a bare option name: the real code reads args[size] (undefined behaviour) — the model must say so or
-    # finish without reading; they are never run on the real code
-    if risky:
-        out = R.model([parse_op(a) for a, _ in risky])
-        res.count("ends-in-bare-option", len(risky))
-        res.count("model-oob", sum(1 for o in out if o == "oob"))
     return mism
 
 
@@ -610,9 +607,6 @@ def tie_import(ctx, res, R, docs, name):
     hops, mops, keep = [], [], []
     for entries in docs:
         text, mop = doc_to_json_and_model(rng, entries)
-        if any(ends_bare(e["args"]) for e in entries):
-            res.count("doc-skipped-ends-in-bare-option")
-            continue
         hops.append("json " + hx(text.encode("utf-8")))
         mops.append(mop)
         keep.append((entries, text))
@@ -643,7 +637,7 @@ def tie_import(ctx, res, R, docs, name):
     cand, cops = [], []
     for j, (e, got, w, text) in enumerate(fails):
         nargs = neutralise(e["args"])
-        if nargs != e["args"] and not ends_bare(nargs):
+        if nargs != e["args"]:
             obj = {"directory": e["directory"], "file": e["file"], "arguments": nargs}
             cand.append(j)
             cops.append("json " + hx(json.dumps([obj]).encode("utf-8")))
@@ -716,8 +710,6 @@ def tie_cli(ctx, res, R, ndocs, name):
             opts.append(("pos", ("./" + f) if f.startswith("-") else f))
             entries.append(dict(directory=bdir + rng.choice(["", "/"]), file=f, opts=opts, form=rng.choice(["A", "C"])))
         text, _ = doc_to_json_and_model(rng, entries)
-        if any(ends_bare(e["args"]) for e in entries):
-            continue
         pj = os.path.join(root, "compile_commands.json")
         open(pj, "w", encoding="utf-8").write(text)
         r = subprocess.run([exe, "--project=" + pj, "-v", "-j1", "--template={id}"], cwd=root, stdout=subprocess.PIPE, stderr=subprocess.PIPE, timeout=120)
@@ -750,7 +742,7 @@ def tie_cli(ctx, res, R, ndocs, name):
     for e, c, wl, text in fails:
         nargs = neutralise(e["args"])
         key = None
-        if nargs != e["args"] and not ends_bare(nargs):
+        if nargs != e["args"]:
             want1 = fs_line(intended(e["opts"], "utf-8"))
             got1 = R.impl([parse_op(nargs, "utf-8")])[0]
             # the include paths of `want1` are raw, those of the vector too: compare on the vector level
@@ -812,6 +804,9 @@ def run(ctx, res):
     structured = []
     for _ in range(n):
         opts = gen_opts(rng)
+        if rng.random() < 0.04:
+            # a bare option name as the very last argument specifies nothing (GCC: error); read out of bounds before 0f74657
+            opts.append(("other", rng.choice(["-I", "-D", "-U", "-isystem", "-std="])))
         structured.append((render(opts), opts))
     hostile = [(gen_hostile_args(rng), None) for _ in range(n)]
     tie_render(ctx, res, R, structured)
